@@ -206,10 +206,26 @@ func (t *Type) infer() *Type {
 	return &t2
 }
 
+// concatType returns the type of the concatenation of two arrays whose
+// types match: an untyped empty literal takes the type of the other side,
+// and the result is a constant only if both sides are.
+func concatType(l, r *Type) *Type {
+	switch {
+	case l == EMPTY_ARRAY || l == EMPTY_MAP:
+		return r
+	case r == EMPTY_ARRAY || r == EMPTY_MAP || l.Sub == nil || r.Sub == nil || l.Name != r.Name:
+		return l
+	}
+	return &Type{Name: l.Name, Sub: concatType(l.Sub, r.Sub), Fixed: l.Fixed || r.Fixed}
+}
+
 func combineTypes(types []*Type) *Type {
 	combinedT := types[0]
 	for _, t := range types[1:] {
 		if combinedT.Equals(t) {
+			if t.Fixed {
+				combinedT = t // a literal with a variable element is not a constant
+			}
 			continue
 		}
 		// types are not equal, ensure that composite types can be combined
